@@ -1,4 +1,85 @@
 import IslaVerif.Model.PTree
+import IslaVerif.Proofs.C16a
+import IslaVerif.Proofs.C16b
+/-
+C16 — derivation-tree operations keep paths, strings, openness and identity consistent.
+ONLY property theorems + non-vacuity examples.  Specifications (`cacheOk`, `leafStr`, `joinStrs`,
+`uniqueIds`, `keyBound`) are defined in Proofs/C16a.lean / C16b.lean.
+-/
 namespace IslaVerif.C16
-theorem placeholder : True := trivial
+open IslaVerif IslaVerif.PTree IslaVerif.DTree
+
+/-! #### openness caches are never wrong, in any state reachable by any operation sequence -/
+
+theorem cacheOk_constructor (d : DTree) : cacheOk (ofDTree d) = true := cacheOk_ofDTree' d
+
+theorem cacheOk_step (isNT : String → Bool) (t t' : PTree) (op : Op) (r : Option Bool)
+    (ht : cacheOk t = true) (h : applyOp isNT t op = some (t', r)) : cacheOk t' = true :=
+  cacheOk_applyOp' isNT t t' op r ht h
+
+/-- every state reachable from a constructor-built tree by any sequence of
+replace_path / is_open / substitute / expansion operations has consistent caches -/
+theorem cacheOk_reachable (isNT : String → Bool) (d : DTree) (ops : List Op) :
+    cacheOk (runOps isNT (ofDTree d) ops) = true := cacheOk_runOps' isNT d ops
+
+/-- hence `is_open()` is correct in every reachable state: open exactly when some leaf is unexpanded -/
+theorem isOpen_correct (t : PTree) (h : cacheOk t = true) :
+    (isOpenOp t).1 = (erase t).hasOpen ∧ cacheOk (isOpenOp t).2 = true ∧ erase (isOpenOp t).2 = erase t :=
+  isOpenOp_correct' t h
+
+theorem hasOpen_iff (t : DTree) : t.hasOpen = true ↔ ∃ pu ∈ t.paths, pu.2.isOpenLeaf = true := hasOpen_iff' t
+
+/-! #### strings -/
+/-- the string of a tree is the concatenation of its leaves -/
+theorem yield_eq_leaves (isNT : String → Bool) (t : DTree) :
+    t.yieldOpen isNT = joinStrs (t.leaves.map (fun pu => leafStr isNT pu.2)) := yield_eq_leaves' isNT t
+
+/-! #### path lookup, node search and the path-indexed view agree -/
+theorem paths_iff_get (t : DTree) (r : Path) (x : DTree) : (r, x) ∈ t.paths ↔ t.get r = some x :=
+  IslaVerif.C04.mem_paths_iff t r x
+
+theorem findNode_spec (t : DTree) (hu : uniqueIds t) (i : Nat) (p : Path) :
+    t.findNode i = some p ↔ ∃ u, t.get p = some u ∧ u.id = i := findNode_spec' t hu i p
+
+/-- the sub-trie rooted at any path lists exactly that subtree's own paths, for any branching degree -/
+theorem trieItems_eq (t sub : DTree) (r : Path) (h : t.get r = some sub) : t.trieItems r = sub.paths :=
+  trieItems_eq' t sub r h
+
+/-- trie keys: total up to the bound of the generated constants, invertible, inside datrie's alphabet,
+prefix-preserving (these are the obligations re-checked when src/isla/trie.py changes) -/
+theorem encodeKey_total (p : Path) (h : ∀ i ∈ p, i < keyBound) : ∃ k, PTree.encodeKey p = some k := encodeKey_total' p h
+theorem decode_encode (p : Path) (k : List Nat) (h : PTree.encodeKey p = some k) : PTree.decodeKey k = some p :=
+  decode_encode' p k h
+theorem encodeKey_alphabet (p : Path) (k : List Nat) (h : PTree.encodeKey p = some k) :
+    ∀ c ∈ k, Generated.Trie.alphabetLo ≤ c ∧ c ≤ Generated.Trie.alphabetHi := encodeKey_alphabet' p k h
+theorem encodeKey_prefix (p q : Path) (k k' : List Nat)
+    (hp : PTree.encodeKey p = some k) (hq : PTree.encodeKey q = some k') : p <+: q ↔ k <+: k' :=
+  encodeKey_prefix' p q k k' hp hq
+
+/-! #### replacement is local -/
+theorem replace_erase (t r t' : PTree) (p : Path) (h : replacePath t p r false = some t') :
+    DTree.replace (erase t) p (erase r) = some (erase t') := erase_replacePath' t r t' p h
+theorem replace_get_self (t t' u : DTree) (p : Path) (h : t.replace p u = some t') : t'.get p = some u :=
+  replace_get_self' t t' u p h
+theorem replace_get_disjoint (t t' u : DTree) (p q : Path) (h : t.replace p u = some t')
+    (h1 : ¬ p <+: q) (h2 : ¬ q <+: p) : t'.get q = t.get q := replace_get_disjoint' t t' u p q h h1 h2
+theorem replace_get_above (t t' u : DTree) (p q : Path) (h : t.replace p u = some t')
+    (h1 : q <+: p) (h2 : q ≠ p) :
+    ∃ a b, t.get q = some a ∧ t'.get q = some b ∧ a.id = b.id ∧ a.sym = b.sym ∧ a.kids.length = b.kids.length :=
+  replace_get_above' t t' u p q h h1 h2
+
+/-! #### structural hash -/
+theorem structEq_hash (hLeaf : String → Nat) (hNode : String → List Nat → Nat) (a b : DTree)
+    (h : structEq a b = true) : structHash hLeaf hNode a = structHash hLeaf hNode b :=
+  structEq_hash' hLeaf hNode a b h
+
+/-! non-vacuity -/
+def exT : DTree := .node 1 "<s>" [.node 2 "<a>" [.openLeaf 3 "<b>", .node 4 "x" []], .node 5 "<a>" [.node 6 "y" []]]
+example : cacheOk (ofDTree exT) = true := by decide
+example : (isOpenOp (ofDTree exT)).1 = true ∧ exT.hasOpen = true := by decide
+example : uniqueIds exT := by unfold uniqueIds; decide
+example : exT.findNode 4 = some [0, 1] ∧ (exT.get [0, 1]).map DTree.id = some 4 := by decide
+example : PTree.encodeKey [0, 300] = some [1, 2, 254, 2, 2, 2, 50] := by decide
+example : (300 : Nat) < keyBound := by decide
+
 end IslaVerif.C16
